@@ -24,6 +24,9 @@ def flagP : P Bool := do
   let n ← nat
   pure (n != 0)
 
+/-- the content the harness gives the output vector before the call (`DenseVector r(n, Q(777))`) -/
+def sentinel (n : Nat) : Array Rat := Array.replicate n 777
+
 def showV (l : List Rat) : String := s!"V {showRatsL l}"
 def showS (q : Rat) : String := s!"S {showRat q}"
 
@@ -58,13 +61,14 @@ def handleCsr : P String := do
              pure (showE (fun r => showV (valuesOf r)) (csrAddDoubleMatMat allow a X D A B))
   | "dgm" => let X ← csrP; let D ← csrP; let av ← ratList; let B ← csrP; let a ← rat; let allow ← flagP
              pure (showE (fun r => showV (valuesOf r)) (csrAddDoubleDiag allow a X D av.toArray B))
-  | "lump" => let A ← csrP; pure (showV (csrLump A))
+  | "lump" => let A ← csrP; pure (showV (csrLumpInto (sentinel A.rows) A).toList)
   | "diag" => let A ← csrP
               pure (showE (fun (r : List Rat × List Nat) => s!"{showV r.1} I {showNatsL r.2}") (csrExtractDiag A))
   | "frob" => let A ← csrP; pure (showS (qsqrt (csrFrobSq A)))
-  | "rownorm2" => let A ← csrP; pure (showV (csrRowNorm2 qsqrt A))
-  | "rownorm2sqr" => let A ← csrP; pure (showV (csrRowNorm2Sqr A))
-  | "rownorm2sqr_s" => let A ← csrP; let s ← ratList; pure (showV (csrRowNorm2SqrScaled A s.toArray))
+  | "rownorm2" => let A ← csrP; pure (showV (csrRowNorm2Into qsqrt (sentinel A.rows) A).toList)
+  | "rownorm2sqr" => let A ← csrP; pure (showV (csrRowNorm2SqrInto (sentinel A.rows) A).toList)
+  | "rownorm2sqr_s" => let A ← csrP; let s ← ratList
+                       pure (showV (csrRowNorm2SqrScaledInto (sentinel A.rows) A s.toArray).toList)
   | "maxabs" => let A ← csrP; pure (showO (maxAbsElemK A.val.toList))
   | "minabs" => let A ← csrP; pure (showO (minAbsElemK A.val.toList))
   | "max" => let A ← csrP; pure (showO (maxElemK A.val.toList))
@@ -90,12 +94,13 @@ def handleBcsr : P String := do
              pure (showE (fun r => showV (podOf r)) (bcsrAddDoubleMatMat allow a X D A B))
   | "dmm_csr" => let X ← mP; let D ← csrP; let A ← mP; let B ← csrP; let a ← rat; let allow ← flagP
                  pure (showE (fun r => showV (podOf r)) (bcsrAddDoubleCsrBcsrCsr allow a X D A B))
-  | "lump" => let A ← mP; pure (showV (bcsrLump A))
+  | "lump" => let A ← mP; pure (showV (bcsrLumpInto (sentinel (A.rows * A.bh)) A).toList)
   | "diag" => let A ← mP; pure (showE showV (bcsrExtractDiag A))
   | "frob" => let A ← mP; pure (showS (qsqrt (bcsrFrobSq A)))
-  | "rownorm2" => let A ← mP; pure (showV (bcsrRowNorm2 qsqrt A))
-  | "rownorm2sqr" => let A ← mP; pure (showV (bcsrRowNorm2Sqr A none))
-  | "rownorm2sqr_s" => let A ← mP; let s ← ratList; pure (showV (bcsrRowNorm2Sqr A (some s.toArray)))
+  | "rownorm2" => let A ← mP; pure (showV (bcsrRowNorm2Into qsqrt (sentinel (A.rows * A.bh)) A).toList)
+  | "rownorm2sqr" => let A ← mP; pure (showV (bcsrRowNorm2SqrInto (sentinel (A.rows * A.bh)) A none).toList)
+  | "rownorm2sqr_s" => let A ← mP; let s ← ratList
+                       pure (showV (bcsrRowNorm2SqrInto (sentinel (A.rows * A.bh)) A (some s.toArray)).toList)
   | "maxabs" => let A ← mP; pure (showO (maxAbsElemK A.val.toList))
   | "minabs" => let A ← mP; pure (showO (minAbsElemK A.val.toList))
   | "max" => let A ← mP; pure (showO (maxElemK A.val.toList))
